@@ -598,7 +598,7 @@ class RangeDimension(Dimension):
     def ticks(self, ticks):
         # convert first: ticks that cannot be stored must leave the stored
         # ticks (and an existing link) as they are
-        ticks = np.ascontiguousarray(ticks, dtype=DataType.Double)
+        ticks = np.asarray(ticks, dtype=DataType.Double)
         if np.any(np.diff(ticks) < 0):
             raise ValueError("Ticks are not given in an ascending order.")
         if self.has_link:
